@@ -164,7 +164,7 @@ def plane_table(ctx):
                'conversions used %s; cell in force after the head: %s' % ([type(b_).__name__ for b_ in used], type(live[0].env.get('box')).__name__ if live else None), node=pn[0], key='cell ' + tag)
 
 
-def _search_eval(ctx, fn, V, normal, maxindex, order=None):
+def _search_eval(ctx, fn, V, normal, maxindex, order=None, hkl=None):
     """interpret the two candidate-search loops on a concrete cell; the candidate generator is replaced by an explicit list"""
     # the search section: everything between the candidate generator (a nested def) and the arrangement by cutboxvector
     gen = [k for k, s in enumerate(fn.body) if isinstance(s, ast.FunctionDef)]
@@ -215,7 +215,11 @@ def _search_eval(ctx, fn, V, normal, maxindex, order=None):
     ev.decide = cmp_decide
     ev.np_override = {'numpy.isclose': isclose, 'numpy.linalg.norm': lambda v: sp.sqrt(sp.nsimplify(np.asarray(v, dtype=object).dot(np.asarray(v, dtype=object)))),
                       'numpy.gcd.reduce': lambda v: sp.Integer(int(np.gcd.reduce([int(x) for x in v])))}
-    q = ev.block(stmts, [Path({'box': 'BOX', 'planenormal': normal, 'maxindex': maxindex})])
+    # the other locals of the head in scope during the search: the Miller indices as given (indices on the *conventional* cell when a centred setting is named, while the
+    # search runs over lattice vectors of the cell in force), the sign of the normal, the in-plane starting vectors
+    env = {'box': 'BOX', 'planenormal': normal, 'maxindex': maxindex, 'hkl': arr(list(hkl)) if hkl is not None else arr([sp.Symbol('h'), sp.Symbol('k'), sp.Symbol('l')]),
+           's': sp.Integer(1), 'm': sp.Integer(1), 'conventional_setting': 'SETTING', 'primitive_box': 'BOX'}
+    q = ev.block(stmts, [Path(env)])
     live = [p for p in q if p.done is None]
     if len(live) != 1:
         return None
@@ -235,11 +239,18 @@ def search(ctx):
              ('orthorhombic 1x2x3 cell, (110)', np.array([[1, 0, 0], [0, 2, 0], [0, 0, 3]], dtype=object), arr([1, R(1, 2), 0]), 1, None),
              ('tilted cell, (001)', np.array([[2, 0, 0], [1, 2, 0], [R(1, 2), R(1, 2), 3]], dtype=object), arr([0, 0, 1]), 1, None),
              ('cubic cell, (-1 2 0)', np.array(sp.eye(3).tolist(), dtype=object), arr([-1, 2, 0]), 2, None)]
+    HKL = {'cubic cell, (111)': (1, 1, 1), 'cubic cell, (001), candidates negated': (0, 0, 1), 'orthorhombic 1x2x3 cell, (110)': (1, 1, 0), 'tilted cell, (001)': (0, 0, 1), 'cubic cell, (-1 2 0)': (-1, 2, 0)}
+    cells = [c + (HKL.get(c[0], (1, 1, 1)),) for c in cells]
+    # centred settings: the search runs in the primitive cell while (hkl) stays indexed on the conventional cell -- face-centred cubic, the conventional (100) and (110) planes
+    fccp = np.array([[0, R(1, 2), R(1, 2)], [R(1, 2), 0, R(1, 2)], [R(1, 2), R(1, 2), 0]], dtype=object)
+    cells += [('primitive cell of a face-centred cubic lattice, conventional (100)', fccp, arr([1, 0, 0]), 2, None, (1, 0, 0)),
+              ('primitive cell of a face-centred cubic lattice, conventional (110)', fccp, arr([1, 1, 0]), 2, None, (1, 1, 0)),
+              ('primitive cell of a body-centred cubic lattice, conventional (100)', np.array([[R(-1, 2), R(1, 2), R(1, 2)], [R(1, 2), R(-1, 2), R(1, 2)], [R(1, 2), R(1, 2), R(-1, 2)]], dtype=object), arr([1, 0, 0]), 2, None, (1, 0, 0))]
     n = 0
-    for tag, V, normal, mi, order in cells:
+    for tag, V, normal, mi, order, hkl_ in cells:
         n += 1
         try:
-            res = _search_eval(ctx, fn, V, normal, mi, order)
+            res = _search_eval(ctx, fn, V, normal, mi, order, hkl_)
         except WouldRaise as e:
             ctx.ob('SEARCH', loc, '%s: the search runs to completion' % tag, False, str(e), node=fn, key=tag)
             continue
@@ -592,6 +603,8 @@ def fault(ctx):
         mask = np.array([False, True, True, False])
 
         class Sy(PyStub):
+            box, pbc, symbols, masses = 'BOX', (True, True, False), ('Al',), (None,)
+
             def __init__(self):
                 self.atoms = At(P.copy())
 
@@ -605,10 +618,20 @@ def fault(ctx):
             c.atoms = At(x.atoms.pos.copy())
             copies.append(c)
             return c
+
+        def mksystem(atoms=None, box=None, pbc=None, symbols=None, masses=None, safecopy=False, **k_):
+            # the System constructor: the new system holds the very Atoms and Box it was given unless safecopy is asked for
+            if k_ or atoms is None:
+                raise Opaque('System(%s)' % sorted(k_))
+            c = Sy()
+            c.atoms = At(atoms.pos.copy()) if safecopy else atoms
+            c.box, c.pbc, c.symbols, c.masses = box, pbc, symbols, masses
+            copies.append(c)
+            return c
         A1, A2 = symarray('u', (3,), real=True), symarray('w', (3,), real=True)
         obj = SymObj(cls, {'system': orig, 'cutindex': ci, 'abovefault': mask, 'a1vect_cart': A1, 'a2vect_cart': A2, 'faultpos_cart': sp.Symbol('zf')}, 'self')
         ev = SymEval(aliases)
-        ev.globals = {'deepcopy': deepcopy}
+        ev.globals = {'deepcopy': deepcopy, 'System': mksystem}
         try:
             r = [q for q in ev.run_fn(ffn, [obj], dict(kw)) if q.done == 'return']
         except Opaque as e:
@@ -675,11 +698,18 @@ def fault(ctx):
         ctx.need(f_ is not None, 'StackingFault.%s setter vanished' % name)
         srcs[name] = norm(f_).replace(name, 'AVECT').replace(name.replace('_uvw', ''), 'AV')
         for tag, cartv, accept in (('in the fault plane', [sp.Symbol('x1'), sp.Symbol('x2'), 0], True), ('with a component along the cut axis', [sp.Symbol('x1'), 0, sp.Rational(1, 2)], False)):
-            class Mil(PyStub):
-                def vector_conventional_to_primitive(self, u, s):
-                    return u
+            converted = []
 
-                def vector_crystal_to_cartesian(self, u, box):
+            class Mil(PyStub):
+                # the two index conversions are told apart by what they return
+                def vector_conventional_to_primitive(self, u, s=None, setting=None):
+                    return np.asarray(u, dtype=object) * 2
+
+                def vector_primitive_to_conventional(self, u, s=None, setting=None):
+                    return np.asarray(u, dtype=object) * 3
+
+                def vector_crystal_to_cartesian(self, u, box, _c=converted):
+                    _c.append((np.asarray(u, dtype=object), box))
                     return arr(cartv)
 
                 def vector4to3(self, u):
@@ -701,6 +731,10 @@ def fault(ctx):
             paths = ev.run_fn(f_, [obj, arr([1, -1, 0])], {})
             acc = bool([p for p in paths if p.done == 'return'])
             ctx.ob('FAULT', loc + name + '.setter', 'a shift vector %s is %s' % (tag, 'accepted' if accept else 'refused'), acc == accept, node=f_, key='%s %s' % (name, tag))
+            if accept:
+                okc = len(converted) == 1 and converted[0][1] == 'BOX' and equal(converted[0][0], arr([2, -2, 0]), deep=False)
+                ctx.ob('FAULT', loc + name + '.setter', 'the indices given on the conventional cell are converted to the primitive cell (conventional -> primitive, not the reverse) before they are made Cartesian in the unit cell\'s box',
+                       bool(okc), 'made Cartesian: %s' % ([(list(u_), b_) for u_, b_ in converted],), node=f_, key='%s conversion' % name)
     ctx.ob('FAULT', loc + 'a2vect_uvw.setter', 'the two shift-vector setters are the same code up to the vector\'s name', srcs['a1vect_uvw'].replace('__a1vect', '__aNvect') == srcs['a2vect_uvw'].replace('__a2vect', '__aNvect'), key='siblings')
     # surface(): default fault position in the middle; both given refused
     sfn = ctx.fn(SF, 'StackingFault.surface')
